@@ -38,6 +38,8 @@ func isChildVarGetenv(m *Module) func(ssa.Value) bool {
 func runC16(c *Ctx) {
 	m := c.Root()
 	r := c.R
+	// the mode the gate tests is the mode the file states (a malformed date does not change "off")
+	r.As(map[string]string{"C02.mode-failsafe": "C16.fork-gate"}, func() { c02ModeFn(c, m) })
 	childVar := m.ConstVal("", "telemetryChildVar")
 	isCV := isChildVarGetenv(m)
 	start := m.Func("", "Start")
